@@ -136,7 +136,7 @@ def _random_ijv(rng, big):
 IMG_DTYPES = ["bool", "uint8", "uint16", "int16", "int32", "int64", "uint32", "int8", "uint64"]
 IJV_DTYPES = ["int64", "int32", "int16", "uint8", "uint16", "uint32", "uint64", "int8"]
 LAYOUTS = ["C", "F", "view", "rev", "rows"]
-IDX_KINDS = ["int64", "int32", "list", "tuple", "uint16", "uint32", "intp"]
+IDX_KINDS = ["int64", "int32", "list", "tuple", "uint16", "uint32", "intp", "col2d"]
 
 
 def _decorate(rng, case):
@@ -175,7 +175,7 @@ def _decorate(rng, case):
         ok = [d for d in IJV_DTYPES if m <= np.iinfo(np.dtype(d)).max]
         case["dt"] = ok[rng.randint(len(ok))]
         case["lay"] = ["C", "F", "rows", "rev"][rng.randint(4)]
-    iks = IDX_KINDS if not case["idx"] or max(case["idx"]) < 65536 else ["int64", "int32", "list", "tuple", "uint32", "intp"]
+    iks = IDX_KINDS if not case["idx"] or max(case["idx"]) < 65536 else ["int64", "int32", "list", "tuple", "uint32", "intp", "col2d"]
     case["ik"] = iks[rng.randint(len(iks))]
     return case
 
@@ -309,6 +309,26 @@ def generate(ctx):
     for b in picked:
         c = _decorate(rng, {kk: (list(v) if isinstance(v, list) else v) for kk, v in b.items()})
         cases.append(c); ctx.count("dtype-" + c["fn"] + "-" + c["dt"]); ctx.count("layout-" + c["lay"]); ctx.count("idx-" + c["ik"])
+    # label images with negative pixel values: background-like for explicit non-negative index lists; with
+    # indexes=None or a negative index the kernel's assertion rejects the call (when it is reached)
+    for _ in range(ctx.n(200, 1500)):
+        lab = _label_image(rng, 12)
+        lab = np.where(rng.rand(*lab.shape) < 0.2, -rng.randint(1, 3, lab.shape), lab)
+        present = [int(x) for x in np.unique(lab) if x > 0]
+        idx = _index_list(rng, present, False)
+        if idx is not None and rng.rand() < 0.15:
+            idx = idx + [-1]
+        cases.append({"fn": "labels", "img": lab.tolist(), "idx": idx}); ctx.count("labels-negative-pixels")
+    for _ in range(ctx.n(60, 400)):
+        c = _random_ijv(rng, False)
+        u = rng.rand()
+        if u < 0.4 and c["ijv"]:
+            c["ijv"][rng.randint(len(c["ijv"]))][rng.randint(3)] = -1
+        elif u < 0.8:
+            c["idx"] = c["idx"] + [-2]
+        else:
+            c["ijv"] = []
+        cases.append(c); ctx.count("malformed-ijv")
     # malformed: empty ijv is rejected by both sides
     cases.append({"fn": "ijv", "ijv": [], "idx": [1]}); ctx.count("malformed-empty-ijv")
     cases.append({"fn": "ijv", "ijv": [], "idx": []}); ctx.count("malformed-empty-ijv")
@@ -379,6 +399,8 @@ def _indexes(case):
         return [int(x) for x in idx]
     if ik == "tuple":
         return tuple(int(x) for x in idx)
+    if ik == "col2d":                      # the kernel ravel()s the index array
+        return np.array(idx, int).reshape(-1, 1)
     return np.array(idx, {None: int, "int64": np.int64, "int32": np.int32, "uint16": np.uint16,
                           "uint32": np.uint32, "intp": np.intp}[ik])
 
@@ -423,7 +445,7 @@ def _bad(o):
 def _marg(case):
     if case["fn"] == "ijv":
         return "entry_hull_ijv", [case["ijv"], case["idx"]]
-    return "entry_hull_labels", [case["img"], _idx_of(case)]
+    return "entry_hull_labels", [case["img"], -1 if case["idx"] is None else case["idx"]]
 
 
 def model(ctx, cases, outs):
@@ -448,14 +470,16 @@ def model(ctx, cases, outs):
     return mouts
 
 
-def _cmp(o, m, what):
+def _cmp(o, m, what, idx=None):
     if isinstance(m, dict):
         return "%s: model failed: %s" % (what, m)
     if m == -1:
         return None if _bad(o) and "exc" in o else "%s: model rejects the input, implementation returned %s" % (what, str(o)[:200])
     if _bad(o):
         return "%s: implementation raised/crashed: %s" % (what, str(o)[:300])
-    rows, counts, over, ncol = m
+    rows, counts, over, ncol = m[:4]
+    if len(m) > 4 and idx is not None and m[4] != idx:
+        return "%s: model's index list %s differs from the harness' %s" % (what, m[4], idx)
     if over:
         return "%s: model predicts that the in-place output overruns the label's own input rows" % what
     if rows != o["rows"] or counts != o["counts"] or ncol != o["ncol"]:
@@ -465,7 +489,7 @@ def _cmp(o, m, what):
 
 
 def compare(case, out, m):
-    d = _cmp(out, m["main"], "in company")
+    d = _cmp(out, m["main"], "in company", _idx_of(case) if case["fn"] == "labels" else None)
     if d:
         return d
     if _bad(out):
@@ -489,7 +513,11 @@ def _all_ijv(case):
 
 
 def _malformed(case):
-    return case["fn"] == "ijv" and len(case["ijv"]) == 0
+    """Calls the entry point rejects (empty ijv, negative entries; for label images only when the kernel is reached)."""
+    if case["fn"] == "ijv":
+        return len(case["ijv"]) == 0 or any(x < 0 for r in case["ijv"] for x in r) or any(x < 0 for x in case["idx"])
+    idx = _idx_of(case)
+    return len(idx) > 0 and any(v > 0 for r in case["img"] for v in r) and any(x < 0 for x in idx)
 
 
 def check(ctx, cases, outs):
@@ -498,7 +526,7 @@ def check(ctx, cases, outs):
     for k, (c, o) in enumerate(zip(cases, outs)):
         if _malformed(c):
             if not (isinstance(o, dict) and "exc" in o):
-                res[k] = "empty point list was not rejected: %s" % (str(o)[:200],)
+                res[k] = "malformed call (empty point list / negative entry) was not rejected: %s" % (str(o)[:200],)
             continue
         if _bad(o):
             res[k] = "implementation raised/crashed on a valid input: %s" % (str(o)[:300],)
@@ -549,8 +577,8 @@ def kernel_crosscheck(ctx, cases, outs):
     bad = [k for k, b in zip(idx, r) if b is not True]
     idl = [k for k, c in enumerate(cases) if c["fn"] == "labels" and not _bad(outs[k])
            and len(c["img"]) * len(c["img"][0]) <= 30][:20]
-    args = [[cases[k]["img"], _idx_of(cases[k])] for k in idl]
-    exp = [[outs[k]["rows"], outs[k]["counts"], 0, outs[k]["ncol"]] for k in idl]
+    args = [[cases[k]["img"], -1 if cases[k]["idx"] is None else cases[k]["idx"]] for k in idl]
+    exp = [[outs[k]["rows"], outs[k]["counts"], 0, outs[k]["ncol"], _idx_of(cases[k])] for k in idl]
     r = ctx.coq_eval_eq("Model.Hull", "entry_hull_labels", args, exp, tag="lab") if idl else []
     bad += [k for k, b in zip(idl, r) if b is not True]
     if bad:
